@@ -312,3 +312,44 @@ func VH_C17_InitiatorTokens() {
 	zzverif.Assert("mic-checksum-usage-25", zzverif.EqBytes(mt.Checksum, crypto.VHSpecChecksum(et, key.KeyValue, append(append([]byte{}, payload...), vhMICHeader(0, 0)...), 25)))
 	zzverif.Reach("done")
 }
+
+// VH_C17_KeyBufferReuse: a history.  The caller keeps one key buffer: it protects a token under the key the buffer
+// holds, the buffer is then refilled in place with an unrelated key (the next session's key read into the same
+// buffer), and the same calls are made again.  Verification must depend on the key bytes presented NOW: the old
+// token no longer verifies, and a token protected now carries the RFC checksum under the new key.
+func VH_C17_KeyBufferReuse() {
+	et, n, wrap := zzverif.Param("etype"), zzverif.Param("n"), zzverif.Param("wrap")
+	kl := crypto.VHKeyLen(et)
+	k1, k2 := zzverif.Bytes(kl), zzverif.Bytes(kl)
+	zzverif.Assume(!zzverif.EqBytes(vhEffKey(et, k2), vhEffKey(et, k1)))
+	buf := append([]byte{}, k1...)
+	key := types.EncryptionKey{KeyType: int32(et), KeyValue: buf}
+	usage := zzverif.Uint32()
+	flags, seq, payload := zzverif.Byte(), zzverif.Uint64(), zzverif.Bytes(n)
+	if wrap == 1 {
+		wt := WrapToken{Flags: flags, EC: uint16(crypto.VHMacLen(et)), SndSeqNum: seq, Payload: payload}
+		zzverif.Assert("setchecksum-ok", wt.SetCheckSum(key, usage) == nil)
+		ok, _ := wt.Verify(key, usage)
+		zzverif.Assert("verify-accepts-own-checksum", ok)
+		copy(buf, k2)
+		ok, _ = wt.Verify(key, usage)
+		zzverif.Assert("token-of-the-old-key-rejected-under-the-new-key", !ok)
+		w2 := WrapToken{Flags: flags, EC: uint16(crypto.VHMacLen(et)), SndSeqNum: seq, Payload: payload}
+		zzverif.Assert("setchecksum-ok", w2.SetCheckSum(key, usage) == nil)
+		want := crypto.VHSpecChecksum(et, k2, append(append([]byte{}, payload...), vhWrapHeader(flags, seq)...), usage)
+		zzverif.Assert("checksum-under-the-new-key-equals-rfc4121", zzverif.EqBytes(w2.CheckSum, want))
+	} else {
+		mt := MICToken{Flags: flags, SndSeqNum: seq, Payload: payload}
+		zzverif.Assert("setchecksum-ok", mt.SetChecksum(key, usage) == nil)
+		ok, _ := mt.Verify(key, usage)
+		zzverif.Assert("verify-accepts-own-checksum", ok)
+		copy(buf, k2)
+		ok, _ = mt.Verify(key, usage)
+		zzverif.Assert("token-of-the-old-key-rejected-under-the-new-key", !ok)
+		m2 := MICToken{Flags: flags, SndSeqNum: seq, Payload: payload}
+		zzverif.Assert("setchecksum-ok", m2.SetChecksum(key, usage) == nil)
+		want := crypto.VHSpecChecksum(et, k2, append(append([]byte{}, payload...), vhMICHeader(flags, seq)...), usage)
+		zzverif.Assert("checksum-under-the-new-key-equals-rfc4121", zzverif.EqBytes(m2.Checksum, want))
+	}
+	zzverif.Reach("done")
+}
